@@ -28,6 +28,10 @@ def bodies(rng, tier):
     for mode in ("ok", "fail", "canceled", "deadline", "wrapped-canceled", "wrapped-deadline", "empty-message", "zzz"):
         out.append(json.dumps({"mode": mode}))
         out.append(json.dumps({"mode": mode, "name": "John", "email": "john@example.com"}))
+    # sequences on the same middleware instance: a complete body followed by bodies that omit fields
+    for _ in range(3):
+        out += [json.dumps(ok), json.dumps({"name": "Jane"}), json.dumps({"email": "x@y.zz"}), "{}", json.dumps({"mode": "fail"}), json.dumps({"name": "n"}),
+                json.dumps({"mode": "ok"}), "{}", json.dumps(ok), "null", json.dumps({"email": "a@b.cd"})]
     raw = [b.encode("utf-8", "surrogatepass") if isinstance(b, str) else b for b in out]
     raw += [b'{"name":"\xff","email":"a@b.cd"}', b"\xff\xfe", b'{"name":"a","email":"a@b.cd"}' + b" " * 5000]
     n = 60 if tier == "quick" else 2000
